@@ -29,7 +29,7 @@ ASSUMPTIONS = [
     "fault-free 'must succeed' is asserted on the nominal schedule only (no timer jitter)",
 ]
 BUDGET = {
-    "quick": {"workers": 16, "examples": 3200},
+    "quick": {"workers": 16, "examples": 4800},
     "thorough": {"workers": 16, "examples": 60000},
 }
 BLOCK = 1024
